@@ -1,9 +1,11 @@
 package harness
 
 import (
+	"bytes"
 	"context"
 	"encoding/json"
 	"fmt"
+	"log"
 	"runtime"
 	"sync"
 	"sync/atomic"
@@ -53,6 +55,9 @@ type c10Input struct {
 	StartDt int64   `json:"startDt"` // virtual ns between bubble start and Start()
 	Res     []JCR   `json:"res"`
 	Ops     []c10Op `json:"ops"`
+	// Kind "gc-race": no history; the GC-vs-Add stress of c10GCRace with these parameters
+	Kind string    `json:"kind,omitempty"`
+	Race *c10RaceP `json:"race,omitempty"`
 }
 
 // a view as returned by the real store: indices into Input.Res for results that
@@ -293,6 +298,153 @@ func c10DeadEntryBlocks(t *testing.T, ttl int64) bool {
 		v, _ := st.View()
 		return len(v) == 0
 	})
+}
+
+// ---------------------------------------------------------------- GC tick vs Add, truly concurrent
+
+// c10LogSpy is the writer behind the store's logger: it notes the virtual instants at which
+// gc() announces itself ("Garbage collecting result store") and counts them, so that the
+// collector's ticks can be observed although no view depends on them.
+type c10LogSpy struct {
+	t0    time.Time
+	seen  atomic.Int64
+	mu    sync.Mutex
+	ticks []int64
+}
+
+func (w *c10LogSpy) Write(p []byte) (int, error) {
+	if bytes.Contains(p, []byte("arbage collecting")) {
+		at := int64(time.Since(w.t0))
+		w.mu.Lock()
+		w.ticks = append(w.ticks, at)
+		w.mu.Unlock()
+		w.seen.Add(1)
+	}
+	return len(p), nil
+}
+
+// c10ObserveGCI reads the collector's interval off its log lines; 0 if nothing was logged.
+func c10ObserveGCI(t *testing.T) (gci int64) {
+	synctest.Test(t, func(t *testing.T) {
+		spy := &c10LogSpy{t0: time.Now()}
+		st := stores.New(log.New(spy, "", 0))
+		stopped := make(chan struct{})
+		go func() { _ = st.Start(context.Background()); close(stopped) }()
+		synctest.Wait()
+		time.Sleep(6 * time.Hour)
+		synctest.Wait()
+		_ = st.Close()
+		<-stopped
+		if len(spy.ticks) >= 2 && spy.ticks[1]-spy.ticks[0] == spy.ticks[0] {
+			gci = spy.ticks[0]
+		}
+	})
+	return gci
+}
+
+type c10RaceP struct {
+	IDs     int    `json:"ids"`     // work ids staged and re-added each round
+	Adders  int    `json:"adders"`  // goroutines that wake at the instant of the tick
+	Rounds  int    `json:"rounds"`  // race ticks per bubble
+	Bubbles int    `json:"bubbles"` // stores
+	Seed    uint64 `json:"seed"`
+}
+
+type c10RaceImpl struct {
+	Trials      int   `json:"trials"`      // race ticks
+	Lost        int   `json:"lost"`        // race ticks after which a fresh result was missing
+	LostResults int   `json:"lostResults"` // fresh results missing in total
+	OnTick      int   `json:"onTick"`      // race ticks at whose instant gc() announced itself (power of the test)
+	Period      int64 `json:"period"`      // virtual ns between race ticks
+}
+
+// c10GCRaceBubble: one store, `Rounds` encounters of a GC tick with Adds for work ids whose
+// entries have outlived the TTL but were not collected yet.  The entries of round r are staged
+// at the instant of race tick r (period P = the first tick after the TTL) and are exactly the
+// dead, uncollected victims of race tick r+1.  Adders sleep until the very instant of the tick,
+// so the collector goroutine and the adders are runnable together; every other adder
+// additionally spins (un-timed, bounded) until gc() has announced itself, which puts its Add
+// between a scan and an eviction if the two are not one critical section.  Whichever of
+// gc / Add gets the lock first, the fresh result must be in the view taken afterwards.
+func c10GCRaceBubble(t *testing.T, ttl, gci int64, p c10RaceP, r *Rng, out *c10RaceImpl) {
+	period := (ttl/gci + 1) * gci
+	out.Period = period
+	spy := &c10LogSpy{t0: time.Now()}
+	st := stores.New(log.New(spy, "", 0))
+	stopped := make(chan struct{})
+	go func() { _ = st.Start(context.Background()); close(stopped) }()
+	synctest.Wait()
+	base := make([]ocr2keepers.CheckResult, p.IDs)
+	for i := range base {
+		base[i] = genResult(r, genUpkeepID(r, i%2 == 0), 1000)
+	}
+	fresh := func(i, round int) ocr2keepers.CheckResult {
+		c := base[i]
+		c.Trigger.BlockNumber = ocr2keepers.BlockNumber(1000 - round/2) // equal, then lower, than the dead entry's
+		c.PerformData = []byte{byte(round), byte(round >> 8), byte(i)}
+		return c
+	}
+	for i := range base {
+		st.Add(fresh(i, 0)) // at virtual 0 = Start: dead at tick `period`, not yet at the tick before
+	}
+	until := func(at int64) { time.Sleep(time.Duration(at) - time.Since(spy.t0)) }
+	var wg sync.WaitGroup
+	for g := 0; g < p.Adders; g++ {
+		wg.Add(1)
+		go func(g int) {
+			defer wg.Done()
+			for round := 1; round <= p.Rounds; round++ {
+				at := int64(round) * period
+				until(at)
+				if g%2 == 1 { // wait (bounded) for the collector to be inside gc()
+					want := at / gci
+					for spin := 0; spy.seen.Load() < want && spin < 1<<22; spin++ {
+					}
+				}
+				for i := g; i < p.IDs; i += p.Adders {
+					st.Add(fresh(i, round))
+				}
+			}
+		}(g)
+	}
+	for round := 1; round <= p.Rounds; round++ {
+		at := int64(round) * period
+		until(at)
+		synctest.Wait() // the tick's gc() and every adder of this round are done
+		out.Trials++
+		spy.mu.Lock()
+		if n := len(spy.ticks); n > 0 && spy.ticks[n-1] == at {
+			out.OnTick++
+		}
+		spy.mu.Unlock()
+		v, _ := st.View()
+		have := map[string]bool{}
+		for _, c := range v {
+			have[c10Key(toJCR(c))] = true
+		}
+		miss := 0
+		for i := range base {
+			if !have[c10Key(toJCR(fresh(i, round)))] {
+				miss++
+			}
+		}
+		if miss > 0 {
+			out.Lost++
+			out.LostResults += miss
+		}
+	}
+	wg.Wait()
+	_ = st.Close()
+	<-stopped
+}
+
+func c10GCRace(t *testing.T, ttl, gci int64, p c10RaceP) c10RaceImpl {
+	var out c10RaceImpl
+	r := NewRng(p.Seed)
+	for b := 0; b < p.Bubbles; b++ {
+		synctest.Test(t, func(t *testing.T) { c10GCRaceBubble(t, ttl, gci, p, r, &out) })
+	}
+	return out
 }
 
 // ---------------------------------------------------------------- generator
@@ -698,8 +850,18 @@ func TestC10(t *testing.T) {
 	}
 	em.Hit(fmt.Sprintf("observed ttl=%dns, assumed gci=%dns", ttl, gci))
 	em.Hit(fmt.Sprintf("probe: dead entry blocks a lower add=%v", c10DeadEntryBlocks(t, ttl)))
+	if g := c10ObserveGCI(t); g > 0 {
+		gci = g
+		em.Hit(fmt.Sprintf("gc interval read off the store's log=%dns", g))
+	} else {
+		em.Hit("gc interval not observable in the store's log: assumed")
+	}
 	run := func(src string, in c10Input) {
-		in.TTL, in.GCI = ttl, gci // the TTL the code under test shows now (corpus files may be older)
+		in.TTL, in.GCI = ttl, gci // what the code under test shows now (corpus files may be older)
+		if in.Kind == "gc-race" && in.Race != nil {
+			em.Emit(src, in, c10GCRace(t, ttl, gci, *in.Race))
+			return
+		}
 		synctest.Test(t, func(t *testing.T) { em.Emit(src, in, c10Run(t, in)) })
 	}
 	names, raws, replayOnly := corpusInputs(t, "C10")
@@ -716,6 +878,8 @@ func TestC10(t *testing.T) {
 	for _, in := range c10Edge(ttl, gci) {
 		run("edge", in)
 	}
+	run("gc-race", c10Input{Kind: "gc-race", Res: []JCR{}, Ops: []c10Op{},
+		Race: &c10RaceP{IDs: 24, Adders: 8, Rounds: 25, Bubbles: tierN(40, 400), Seed: seed()}})
 	r := NewRng(seed())
 	for i, n := 0, tierN(4000, 40000); i < n; i++ {
 		run("gen", c10GenSeq(r, ttl, gci, em))
